@@ -143,6 +143,9 @@ fn walk_did(d: &CoreDID) {
   let _ = CoreDID::from_json(&j);
   st("hash-ord");
   let _ = (hash_of(d), d.cmp(d));
+  st("conversions");
+  let _ = (d.clone().into_string().len(), String::from(d.clone()).len(), d.clone().into_url().to_string().len(), DIDUrl::from(d.clone()).to_string().len());
+  let _ = (d.scheme().len(), AsRef::<str>::as_ref(d).len(), d == d.as_str());
 }
 fn walk_url(u: &DIDUrl) {
   st("parts");
@@ -169,6 +172,10 @@ fn walk_url(u: &DIDUrl) {
   let _ = DIDUrl::from_json(&j);
   st("hash-ord");
   let _ = (hash_of(u), u.cmp(u));
+  st("conversions");
+  let _ = (String::from(u.clone()).len(), u.url().to_string().len(), format!("{:?}", u.url()).len(), u.url().is_empty());
+  let _ = u.clone().map(|d| d).to_string();
+  let _ = DIDUrl::new(u.did().clone(), Some(u.url().clone())).to_string();
 }
 
 fn walk_jwk(j: &Jwk) {
@@ -340,6 +347,8 @@ fn entry(name: &str, data: &[u8], aux: &[u8]) -> Option<bool> {
       Ok(d) => {
         st("accessors");
         let _ = (d.network_str().len(), d.tag_str().len(), d.to_string());
+        st("conversions");
+        let _ = (d.clone().into_string().len(), String::from(d.clone()).len(), CoreDID::from(d.clone()).as_str().len());
         true
       }
       Err(_) => false,
@@ -385,6 +394,11 @@ fn entry(name: &str, data: &[u8], aux: &[u8]) -> Option<bool> {
         st("serde");
         let _ = IotaDID::from_json(&d.to_json().unwrap_or_default());
         walk_did(d.as_ref());
+        st("conversions");
+        let _ = (d.clone().into_string().len(), String::from(d.clone()).len(), CoreDID::from(d.clone()).as_str().len());
+        let _ = (d.clone().into_url().to_string().len(), d.scheme().len(), d.authority().len(), d.method().len(), d.method_id().len());
+        let _ = (IotaDID::check_validity(&d).is_ok(), IotaDID::is_valid(d.as_ref()), hash_of(&d), d.cmp(&d));
+        let _ = IotaDID::try_from(CoreDID::from(d.clone())).map(|x| x.to_string());
         true
       }
       Err(_) => false,
@@ -399,6 +413,10 @@ fn entry(name: &str, data: &[u8], aux: &[u8]) -> Option<bool> {
         st("serde");
         let _ = DIDJwk::from_json(&d.to_json().unwrap_or_default());
         let _ = (d.to_string(), hash_of(&d));
+        st("conversions");
+        let _ = (String::from(d.clone()).len(), CoreDID::from(d.clone()).as_str().len(), format!("{:?}", d).len());
+        walk_did(d.as_ref());
+        let _ = DIDJwk::try_from(CoreDID::from(d.clone())).map(|x| x.to_string());
         true
       }
       Err(_) => false,
